@@ -32,7 +32,8 @@ Prof(fns, maps, locs) ==
 FnSets == << <<>>,
              <<FnR(2, "keep", "keep")>>,
              <<FnR(5, "ns::f(int)", "ns::f(int)"), FnR(1, "_Z3foov", "_Z3foov")>>,
-             <<FnR(1, "named", ""), FnR(3, "(a::b)", "(a::b)")>> >>
+             <<FnR(1, "named", ""), FnR(3, "(a::b)", "(a::b)")>>,
+             <<FnR(2, "<unknown>", "<unknown>"), FnR(4, "(anonymous namespace)<T>", "(anonymous namespace)<T>")>> >>   \* names made of bracket groups only
 \* mapping sets: 1 unsymbolised + 1 symbolised; two unsymbolised sharing the address range; fake + URL-sourced
 MapSets == << <<MapR(1, 16, "bin1", "b1", FALSE), MapR(2, 48, "bin2", "", TRUE)>>,
               <<MapR(1, 16, "bin1", "", FALSE), MapR(4, 16, "bin2", "b2", TRUE)>>,
